@@ -181,6 +181,10 @@ pub fn enforce_general_constraints<E: FieldElement>(
     let top_binary_flag = op_flag.top_binary();
     result[NUM_GENERAL_CONSTRAINTS - 1] = top_binary_flag * is_binary(frame.stack_item(0));
 
+    // the bit produced by EXPACC is the top element of the next row; it must be binary as well
+    // (operation flags are mutually exclusive, so the two terms can share the constraint).
+    result[NUM_GENERAL_CONSTRAINTS - 1] += op_flag.expacc() * is_binary(frame.stack_item_next(0));
+
     NUM_GENERAL_CONSTRAINTS
 }
 // BOUNDARY CONSTRAINTS
